@@ -260,6 +260,37 @@ func runPressure(seed uint64, idx int) (in sx.V, out sx.V, tags []string) {
 				}
 				tagset["late-writable"] = true
 			}
+		case 11:
+			// a client with replies piled up reads what has reached its socket and, in the same breath,
+			// sends more requests: the loop sees ONE event, readable and writable.  The dispatcher must
+			// flush the backlog (the socket has room again) - it must not serve the new bytes only
+			c := r.Intn(nc)
+			p := w.s.Clients[c]
+			if !(scenario == 4 && c == 0) && !w.closedC[c] && !p.EOF && w.s.L.IsOpen(p.ProxyFd) {
+				before := w.s.L.Snapshot()[p.ProxyFd].Outbound
+				n0 := len(p.Got)
+				w.s.DrainSome(p, 1<<22)
+				drained := len(p.Got) - n0
+				b := nextReq(c)
+				ok = guard(func() { w.s.SendCombined(p, b) })
+				counts := map[string]int{}
+				for _, bk := range w.s.Backends {
+					counts[bk.Addr]++
+				}
+				var totals []sx.V
+				for _, a := range w.cfg.nodes {
+					if counts[a] > 0 {
+						totals = append(totals, sx.L(sx.S(a), sx.I(counts[a])))
+					}
+				}
+				w.quietRecord(sx.L(sx.I(1), sx.I(c), sx.B(b), sx.L(totals...)))
+				n1 := len(p.Got)
+				w.s.DrainSome(p, 1<<22)
+				w.quietRecord(sx.L(sx.I(11), sx.I(c), sx.I(before), sx.I(drained), sx.I(len(p.Got)-n1)))
+				if before > 0 {
+					tagset["readable-and-writable"] = true
+				}
+			}
 		case 9:
 			// a client reads a little (unless it is the one that never reads)
 			c := r.Intn(nc)
